@@ -81,7 +81,10 @@ impl J {
         self.get(k).and_then(J::s).unwrap_or("")
     }
     pub fn garr(&self, k: &str) -> &[J] {
-        self.get(k).and_then(J::arr).map(|v| v.as_slice()).unwrap_or(&[])
+        self.get(k)
+            .and_then(J::arr)
+            .map(|v| v.as_slice())
+            .unwrap_or(&[])
     }
 
     pub fn to_string(&self) -> String {
@@ -287,7 +290,8 @@ impl Parser<'_> {
                                 b'u' => {
                                     let h = std::str::from_utf8(&self.b[self.i..self.i + 4])
                                         .map_err(|e| e.to_string())?;
-                                    let v = u32::from_str_radix(h, 16).map_err(|e| e.to_string())?;
+                                    let v =
+                                        u32::from_str_radix(h, 16).map_err(|e| e.to_string())?;
                                     s.push(char::from_u32(v).unwrap_or('?'));
                                     self.i += 4;
                                 }
@@ -304,7 +308,8 @@ impl Parser<'_> {
                                 }
                             }
                             s.push_str(
-                                std::str::from_utf8(&self.b[start..end]).map_err(|e| e.to_string())?,
+                                std::str::from_utf8(&self.b[start..end])
+                                    .map_err(|e| e.to_string())?,
                             );
                             self.i = end;
                         }
@@ -327,7 +332,10 @@ impl Parser<'_> {
             _ => {
                 let start = self.i;
                 while self.i < self.b.len()
-                    && matches!(self.b[self.i], b'-' | b'+' | b'.' | b'e' | b'E' | b'0'..=b'9')
+                    && matches!(
+                        self.b[self.i],
+                        b'-' | b'+' | b'.' | b'e' | b'E' | b'0'..=b'9'
+                    )
                 {
                     self.i += 1;
                 }
